@@ -32,6 +32,8 @@ mod c09;
 mod c03;
 mod c18;
 mod c08;
+mod c02_run;
+mod c10_frames;
 
 pub(in crate::program) fn bare_program<'p>(arena: &'p Arena) -> Program<'p> {
     let str_interner = StrInterner::new();
@@ -139,6 +141,7 @@ macro_rules! eval_stubs {
         #[kani::stub(crate::arena::Arena::alloc_str, crate::arena::Arena::kstub_alloc_str)]
         #[kani::stub(alloc::fmt::format, crate::kani_support::stub_fmt_format)]
         #[kani::stub(core::fmt::write, crate::kani_support::stub_fmt_write_nothing)]
+        #[kani::stub(<f64 as core::fmt::Display>::fmt, crate::kani_support::stub_f64_display)]
         #[kani::stub(f64::exp, crate::kani_support::stub_libm1)]
         #[kani::stub(f64::ln, crate::kani_support::stub_libm1)]
         #[kani::stub(f64::log2, crate::kani_support::stub_libm1)]
